@@ -270,9 +270,31 @@ func stripForGeneration(obj map[string]any) map[string]any {
 	return c
 }
 
+// normalizeMeta mimics the ObjectMeta round trip of the real server: empty
+// maps and lists in metadata are omitted (omitempty).
+func normalizeMeta(m map[string]any) {
+	for _, k := range []string{"ownerReferences", "finalizers", "managedFields"} {
+		if l, ok := m[k].([]any); ok && len(l) == 0 {
+			delete(m, k)
+		}
+		if v, ok := m[k]; ok && v == nil {
+			delete(m, k)
+		}
+	}
+	for _, k := range []string{"labels", "annotations"} {
+		if mm, ok := m[k].(map[string]any); ok && len(mm) == 0 {
+			delete(m, k)
+		}
+		if v, ok := m[k]; ok && v == nil {
+			delete(m, k)
+		}
+	}
+}
+
 func (s *Server) create(d *ResourceDef, ns string, in map[string]any) (map[string]any, *apiErr) {
 	obj := CopyMap(in)
 	m := metaOf(obj)
+	normalizeMeta(m)
 	name, _ := m["name"].(string)
 	if name == "" {
 		if gn, _ := m["generateName"].(string); gn != "" {
@@ -339,6 +361,7 @@ func (s *Server) update(d *ResourceDef, ns, name, sub string, in map[string]any,
 	}
 	obj := CopyMap(in)
 	m := metaOf(obj)
+	normalizeMeta(m)
 	if bn, _ := m["name"].(string); bn != "" && bn != name {
 		return nil, errBadRequest("the name of the object (" + bn + ") does not match the name on the URL (" + name + ")")
 	}
